@@ -222,7 +222,7 @@ BodyClasses == {"null", "array", "string", "number", "bool", "empty", "emptyObje
                 "wrongTypesObj", "hugeNumber", "hugeInt", "negative", "floatExp", "nested", "noIdToken", "emptyIdToken", "idTokenTwoDots",
                 "idTokenJSONPayloadArray", "idTokenClaimsOddTypes", "idTokenExpHuge", "bom", "dupKeys",
                 \* the genuine answer (real tokens, registered as secrets) made undecodable: what an error message may tempt a service to echo
-                "minted-expStr", "minted-trailing", "minted-expFloat", "minted-typeArr", "minted-bareClaims", "minted-jsonJws"}
+                "minted-expStr", "minted-trailing", "minted-expFloat", "minted-typeArr", "minted-bareClaims", "minted-bareMinimal", "minted-jsonJws"}
 C15Space == [what : {"request"}, shape : ReqShapes, kind : {"app", "callback", "logout"}, sess : {"none", "valid"}]
             \cup [what : {"body"}, shape : BodyClasses, kind : {"login", "refresh"}, sess : {"valid"}]
             \cup [what : {"claims"}, shape : {"nonceNonString", "nonceEmpty", "audAbsent", "audNearMiss", "garbage", "nestedJws", "sigStripped"},
